@@ -205,9 +205,9 @@ func supplyMenuLight(w *world.World, o menuOpts) []world.Action {
 
 func c07Profiles(tier Tier) []*explore.Profile {
 	o := menuOpts{thorough: tier.Thorough(), shards: 2}
-	depth := 5
+	depth := 7
 	if tier.Thorough() {
-		depth = 7
+		depth = 9
 	}
 	p := &explore.Profile{
 		Name: "nonce", EnvCfg: ledgerEnv(2), Depth: depth, Deadline: tierDeadline(tier), WithGhost: true,
